@@ -79,7 +79,7 @@ theorem step_unary (s : Sys) (k : Nat) (op : Op) (hb : isBinary op = none) :
     step s k op =
       (if !supports s.ty op then .error (.pre "the type has no such member") else do
         let d ← rd s.objs k
-        let r ← if s.ty = .ipv then step1Ipv s.cap op d else step1 s.cap op d
+        let r ← if s.ty = .ipv then step1Ipv s.cap op d else step1 s.cap s.kind op d
         .ok (s.setObj k r.1, r.2)) := by
   cases op <;> first | rfl | simp [isBinary] at hb
 
